@@ -41,6 +41,7 @@ def units(tier, seed):
                               cutoff=([25, 20] if k % 4 == 0 else None)))
     us = [{"kind": "run", "descs": c} for c in chunks(descs, 12)]
     us.append({"kind": "minimize-both", "seed": s})
+    us.append({"kind": "minimize-long", "seed": s})
     us.append({"kind": "minimize-inf", "seed": s})
     nmax = 120 if tier == "quick" else 400
     for box in ("B_asym", "B_dec"):
@@ -80,6 +81,8 @@ def _min_check(res, unit, box, kw, seed, obj="twofunnel"):
         if len(cf.calls) == N:
             res.nontrivial.add(h64(("min", box, N)))
             res.flags["budget exhausted exactly"] += 1
+    if len(cf.calls) > 10000:
+        res.flags["minimize run with more than 10000 calls"] += 1
     if r.nfev != len(cf.calls):
         res.add_violation(ID, "C03/minimize-nfev", f"minimize({kw}) reports nfev={r.nfev}, fun was called {len(cf.calls)} times", {"box": box}, rep)
     else:
@@ -100,6 +103,11 @@ def run_unit(unit):
             for N in (1, 5, 17, 40, 57, 90, 120):
                 for M in (1, 2, 3, 5, 40):
                     _min_check(res, unit, box, {"maxfun": N, "maxiter": M}, unit["seed"])
+        res.configs += 1
+        res.configs_completed += 1
+    elif unit["kind"] == "minimize-long":
+        # maxiter only, long enough to request more than pyhms' default budget of 10000 evaluations
+        _min_check(res, unit, "B_6d", {"maxiter": 450}, unit["seed"], obj="sphere_in")
         res.configs += 1
         res.configs_completed += 1
     elif unit["kind"] == "minimize-inf":
